@@ -19,7 +19,8 @@ import (
 	"compress/zlib"
 	"encoding/json"
 	"fmt"
-	"hash/crc32"
+
+	"verifharness/internal/racfmt"
 )
 
 // Layout constants shared with RacIndex.tla.
@@ -46,51 +47,15 @@ type absNode struct {
 	ttag, clen, stag  []int
 }
 
-func put48(b []byte, v int64) {
-	for i := 0; i < 6; i++ {
-		b[i] = byte(uint64(v) >> (8 * uint(i)))
-	}
-}
+func put48(b []byte, v int64) { racfmt.Put48(b, v) }
 
-func nodeChecksum(b []byte) (byte, byte) {
-	c := crc32.ChecksumIEEE(b[6:])
-	c ^= c >> 16
-	return byte(c), byte(c >> 8)
-}
+func nodeChecksum(b []byte) (byte, byte) { return racfmt.NodeChecksum(b) }
 
+// encodeNode: the encoder itself lives in internal/racfmt (shared with
+// cmd/racrreplay, which builds valid files with it).
 func encodeNode(n absNode) []byte {
-	ar := n.ar
-	size := 16*ar + 16
-	b := make([]byte, size)
-	b[0], b[1], b[2] = 0x72, 0xC3, 0x63
-	if n.dmg == 1 {
-		b[2] = 0x64
-	}
-	b[3] = byte(ar)
-	for i := 1; i <= ar; i++ {
-		put48(b[8*i:], n.dptr[i-1])
-	}
-	for i := 0; i < ar; i++ {
-		b[8*i+7] = byte(n.ttag[i])
-	}
-	b[8*ar+7] = byte(n.cod)
-	if n.dmg == 2 {
-		b[8*ar+6] = 1
-	}
-	base := 8*ar + 8
-	for i := 0; i < ar; i++ {
-		put48(b[base+8*i:], n.cptr[i])
-		b[base+8*i+6] = byte(n.clen[i])
-		b[base+8*i+7] = byte(n.stag[i])
-	}
-	put48(b[base+8*ar:], n.cmax)
-	b[base+8*ar+6] = byte(n.ver)
-	b[base+8*ar+7] = byte(n.ar2)
-	b[4], b[5] = nodeChecksum(b)
-	if n.dmg == 3 {
-		b[4] ^= 0x5A
-	}
-	return b
+	return racfmt.EncodeNode(racfmt.Node{Off: n.off, CMax: n.cmax, Ar: n.ar, Ar2: n.ar2, Ver: n.ver, Cod: n.cod, Dmg: n.dmg,
+		DPtr: n.dptr, CPtr: n.cptr, TTag: n.ttag, CLen: n.clen, STag: n.stag})
 }
 
 func ints(v interface{}) ([]int64, error) {
